@@ -373,12 +373,14 @@ register("C03", streams=[Q("filter", pred="custom", apis=["find_matches"], src=F
                          Q("filterpar", pred="custom", apis=["find_matches"], src=None, share=1)],
          observables=["calls", "results_exc"],
          rule="paths with filters in any position (root, after wildcard/rec/slice, stacked, followed by steps); predicates are decision tables over the candidate returning arbitrary truthy/falsy objects or raising, neighbour lookups, and has-family predicates; compared: results, per-candidate call log (path, data_name, data, parent), exception cause chain")
-register("C04", streams=[Q("filter", pred="has", apis=["find_matches"], src=False, share=5),
-                         Q("filter", pred="below", apis=["find_matches"], src=False, share=1)],
+register("C04", streams=[Q("filter", pred="has", apis=["find_matches"], src=False, share=5, untraced=0.4),
+                         Q("filter", pred="below", apis=["find_matches"], src=False, share=1, untraced=0.4)],
          observables=["fncalls", "results_exc"],
          rule="has/has_not/has_all/has_any trees (depth<=3) over relative paths incl. wildcards, recursion, parent steps, nested filters; six operators; constants of every JSON kind; conversion chains of length 0-3 that raise on part of the data; compared: results, conversion call order, exception chain")
-register("C05", streams=[Q("all", apis=ALL_APIS, src=None, share=3, untraced=0.4), Q("parent", apis=ALL_APIS, src=True, share=1, untraced=0.4)],
+register("C05", streams=[Q("all", apis=ALL_APIS, src=None, share=3, untraced=0.4), Q("parent", apis=ALL_APIS, src=True, share=1, untraced=0.4),
+                         Q("keyidx", apis=ALL_APIS, src=None, share=1, untraced=0.6)],
          observables=["results_exc"], oracles=[oracles.deep_oracle, oracles.big_iteration_oracle_for({"kind": "find", "n": 260000}), oracles.projection_oracle],
+         extra=[families.MutateFamily("cascade", 400, 15000, "get(store_default) with constant and callable defaults: what is returned is what is stored, the callable is asked once")],
          rule="all four read functions on the same (path, source) space, source = document or k-th match of another path; default in {none, constant incl. falsy and {}, callable}; must_match in {True, False}")
 register("C07", generated=["Shared"], streams=[Q("all", apis=["find_matches", "find"], src=None, nexts="partial", untraced=0.5, share=4),
                          Q("filter", pred="below", apis=["find_matches", "find"], src=None, nexts="partial", untraced=0.5, share=1)],
